@@ -1,4 +1,6 @@
-import Cello.RBTree
+import Cello.RBTreeCmp
+import Cello.RBTreeWord
+import Cello.Hash
 import Driver.Common
 /- driver for engine `tree` (C03): interprets the op files of harness/h_tree.c on the model `Cello.RB.step`
    (the very function the theorems of CelloProofs/Props/C03.lean are about) and prints the same `O` lines:
@@ -16,6 +18,9 @@ import Driver.Common
                               (run as one `setA` step per key of the forward iteration; one O line)
      assignmap T <kind> [k v]…   assign(t, obj), obj a map that is not a Tree, iterating the pairs in this order
      newodd T <kind> …        new(Tree, K, V, …) with an odd number of arguments: FormatError
+     cmp T S                  cmp(t, s), two Trees of one kind     hash T      hash(t)        (third layer: `BOp`, `stepB`)
+     links T                  per node in preorder `key<parentkey:colour`, read back from the parent-and-colour words that the
+                              accessors of the source (CelloGen.Tree PW terms, Cello/RBTreeWord.lean) build
 
    dump = `n=<nitems> ok=<invariants hold> h=<height> sz=<ksize>/<vsize> t=<preorder (colour key:value left right) | #hash when n>40>` -/
 open Cello.RB
@@ -265,6 +270,60 @@ def walkSteps (st : Store KTree) (t : Nat) (keys : List Key) (v : Option Val) : 
     (stepA CelloGen.Tree.stringAssignGuardsSelf Key.cmp st
       (.setA t (.own k) (match v with | some v => .val v | none => .own k))).map (·.1)) st
 
+/-- the element comparisons / hashes of the op files: `hash_data` is the model of the current source (Cello/Hash.lean) -/
+def elemE : Elem Key Val := ⟨Val.cmpC, Key.hashC Cello.Hash.hashData, Key.hashC Cello.Hash.hashData⟩
+
+/-- statistics only: where the comparison of two maps is decided -/
+def cmpTag : List (Key × Val) → List (Key × Val) → String
+  | [], [] => "cmp:both-terminal"
+  | [], _ :: _ => "cmp:self-is-prefix"
+  | _ :: _, [] => "cmp:obj-is-prefix"
+  | a :: l, b :: l' =>
+    match Key.cmp a.1 b.1 with
+    | .lt => "cmp:key-less"
+    | .gt => "cmp:key-greater"
+    | .eq =>
+      match Val.cmpC a.2 b.2 with
+      | .lt => "cmp:value-less"
+      | .gt => "cmp:value-greater"
+      | .eq => cmpTag l l'
+
+def opTagsB (st : Store KTree) : BOp Key Val → List String
+  | .cmp t s =>
+    match Store.get? st t, Store.get? st s with
+    | some m, some m2 => [cmpTag (toList m.root) (toList m2.root)] ++ (if t = s then ["cmp:with-itself"] else [])
+    | _, _ => []
+  | .hash t => match Store.get? st t with | some m => [if m.nitems = 0 then "hash:empty" else "hash:walk"] | none => []
+  | .a _ => []
+
+/-- the link table as text: parent addresses turned back into keys -/
+def showLinks (t : KT) : String :=
+  let tab := linkTable t
+  let keyAt (a : Nat) : String :=
+    if a = 0 then "-" else match tab.find? (fun e => e.2.1 = a) with | some e => showKey e.1 | none => s!"?{a}"
+  s!"n={tab.length} " ++ " ".intercalate ((tab.take bigLimit).map (fun e =>
+    showKey e.1 ++ "<" ++ keyAt e.2.2.1 ++ (if e.2.2.2 = .R then ":R" else ":B")))
+
+/-- `cmp` / `hash` through `stepB` -/
+def execB (d0 : DState) (name : String) (op : BOp Key Val) : IO DState := do
+  let d := { d0 with tags := bumpAll (opTagsB d0.st op) d0.tags }
+  match stepB CelloGen.Tree.stringAssignGuardsSelf Key.cmp elemE d.st op with
+  | none =>
+    IO.println s!"O {name} ub"
+    return { d with nops := d.nops + 1, nub := d.nub + 1 }
+  | some (_, .ord o) =>
+    IO.println s!"O {name} {match o with | .lt => "-1" | .eq => "0" | .gt => "1"}"
+    return { d with nops := d.nops + 1 }
+  | some (_, .word h) =>
+    IO.println s!"O {name} {hex16 h}"
+    return { d with nops := d.nops + 1 }
+  | some (_, .err .KeyError) =>
+    IO.println s!"O {name} KeyError"
+    return { d with nops := d.nops + 1 }
+  | some (_, _) =>
+    IO.println "O bad-op"
+    return d
+
 def main (args : List String) : IO Unit := do
   let lines ← Driver.inputLines args
   let mut d : DState := {}
@@ -353,6 +412,13 @@ def main (args : List String) : IO Unit := do
           match k.toNat? with
           | some n => d ← exec d "resize" (.resize t n) (some t)
           | none => IO.println "O bad-op"
+        else if opn = "cmp" then
+          match k.toNat? with
+          | some s =>
+            match typeOf t, typeOf s with
+            | some kd, some kd2 => if kd = kd2 then d ← execB d "cmp" (.cmp t s) else IO.println "O bad-op"
+            | _, _ => IO.println "O bad-op"
+          | none => IO.println "O bad-op"
         else if opn = "assign" || opn = "copy" then
           match k.toNat? with
           | some s =>
@@ -388,6 +454,12 @@ def main (args : List String) : IO Unit := do
               | none => IO.println "O walkself ub"; d := { d with nub := d.nub + 1 }
             | _ => IO.println "O walkself ub"; d := { d with nub := d.nub + 1 }
           | none => IO.println "O bad-op"
+        else if opn = "links" then
+          match Store.get? d.st t with
+          | some m => IO.println s!"O links {showLinks m.root}"
+          | none => IO.println "O bad-op"
+        else if opn = "hash" then
+          if (typeOf t).isSome then d ← execB d "hash" (.hash t) else IO.println "O bad-op"
         else if opn = "len" then d ← exec d "len" (.len t) none
         else if opn = "iter" then d ← exec d "iter" (.iter t) none
         else if opn = "riter" then d ← exec d "riter" (.riter t) none
